@@ -21,6 +21,7 @@ static std::string CheckRow(const UniValue& row)
         { std::vector<unsigned char> b(i == 0 ? row["cbLen"].getInt<int>() : 2, 0x51); in.scriptSig = CScript(b.begin(), b.end()); }
         mtx.vin.push_back(in);
     }
+    if (row.exists("bulk")) for (int k = 0; k < row["bulk"].getInt<int>(); ++k) mtx.vout.emplace_back(MAX_MONEY, CScript() << OP_TRUE);
     for (size_t i = 0; i < outs.size(); ++i) {
         mtx.vout.emplace_back(AmountFromLimbs(outs[i]), CScript() << OP_TRUE);
     }
